@@ -488,7 +488,7 @@ func Main(args []string) {
 		"reference_verdicts":   verdicts,
 		"mutant_statuses":      statuses,
 		"crashed_cases":        crashes,
-		"distinct_violations":  len(found) - flakes,
+		"distinct_findings_including_known": len(found) - flakes,
 		"workers_lost_without_panic": flakes,
 		"seeds":                seedSummary(meta),
 		"others_on_both_sides": meta.Both,
